@@ -312,10 +312,33 @@ func CheckUserInput(conf Root) error {
 		for _, name := range ig.Notification.Columns {
 			check("notification column name", name)
 		}
-		for _, inp := range ig.Event.Inputs {
+		for _, cols := range ig.Table.Unique {
+			for _, name := range cols {
+				check("unique column name", name)
+			}
+		}
+		for _, cols := range ig.Table.Index {
+			for _, name := range cols {
+				// an index column may carry a sort order
+				for _, order := range []string{" ASC", " DESC", " asc", " desc"} {
+					name = strings.TrimSuffix(name, order)
+				}
+				check("index column name", name)
+			}
+		}
+		var checkInput func(inp dig.Input)
+		checkInput = func(inp dig.Input) {
+			check("referenced table name", inp.Filter.Ref.Table)
 			check("referenced column name", inp.Filter.Ref.Column)
+			for _, c := range inp.Components {
+				checkInput(c)
+			}
+		}
+		for _, inp := range ig.Event.Inputs {
+			checkInput(inp)
 		}
 		for _, bd := range ig.Block {
+			check("referenced table name", bd.Filter.Ref.Table)
 			check("referenced column name", bd.Filter.Ref.Column)
 		}
 	}
